@@ -2,8 +2,8 @@
 import re
 
 from acverif.mir import short, tstr, subterms
-from acverif.rl import (is_call, peel, peel_all, is_var, is_agg, is_const, bool_gates, try_gates, reachable_without, must_pass,
-                        line_of, operand_ty)
+from acverif.rl import (is_call, peel, peel_all, is_var, is_agg, is_const, bool_gates, try_gates, discr_gates, arm_edges, param_at, expand_vars,
+                        reachable_without, must_pass, line_of, operand_ty)
 
 LEVEL = 'other'
 EXPLANATION = """
@@ -34,81 +34,107 @@ def index_of(t):
 
 def splice_loop(cx, b, is_str):
     R = 'R12.2'
-    hay = ('v', 'haystack', b.locals_named('haystack')[0]) if b.locals_named('haystack') else None
-    dst = ('v', 'dst', b.locals_named('dst')[0]) if b.locals_named('dst') else None
-    if hay is None or dst is None:
-        cx.bad(R, b, 'params', 'haystack / dst parameters not found')
+    SELF, hay, dst, RW = (param_at(b, i) for i in (1, 2, 3, 4))
+    if hay is None or dst is None or RW is None:
+        cx.bad(R, b, 'params', 'haystack / dst / replace_with parameters not found')
         return
+
+    def ex(x):
+        return peel_all(expand_vars(b, x))
+
+    def unwrapped_iter(x):
+        """x = try_find_iter(..)? in any spelling (?, match Ok/Err, through into_iter)"""
+        x = ex(x)
+        for _ in range(6):
+            if is_call(x, r'IntoIterator::into_iter$'):
+                x = ex(x[2][0])
+            elif x[0] == 'try':
+                x = ex(x[1])
+            elif x[0] == 'f' and x[1][0] == 'dc' and x[1][2] in ('Ok', 'Continue'):
+                x = ex(x[1][1])
+            elif is_call(x, r'Try::branch$'):
+                x = ex(x[2][0])
+            else:
+                break
+        return x if is_call(x, r'Automaton::try_find_iter$') else None
     # R12.1 iterator source
     src = b.calls(r'Automaton::try_find_iter$')
     ok = False
     why = 'no call to try_find_iter'
     if len(src) == 1:
         ct = b.call_term(src[0][0], src[0][1])
-        a = ct[2]
-        ok = len(a) == 2 and is_var(peel(a[0]), 'self') and is_call(a[1], r'util::search::Input::new$') and peel(a[1][2][0]) == hay
+        a = [ex(x) for x in ct[2]]
+        ok = len(a) == 2 and a[0] == SELF and is_call(a[1], r'util::search::Input::new$') and ex(a[1][2][0]) == hay
         why = 'iterates %s' % tstr(ct, 200)
     cx.report('R12.1', b, 'source', ok, 'iterates self.try_find_iter(Input::new(haystack)) with the caller haystack, no span/anchoring/earliest change' if ok else why + ' (expected try_find_iter(self, Input::new(haystack)))')
-    g = try_gates(b, lambda x: is_call(x, r'Automaton::try_find_iter$'))
     nexts = b.calls(r'core::iter::(traits::iterator::)?Iterator::next$')
     okn = False
-    if len(nexts) == 1 and g:
+    if len(nexts) == 1:
         nt = b.call_term(nexts[0][0], nexts[0][1])
-        it = nt[2][0]
-        itt = b.local_term(it[2], expand=True) if is_var(it) else it
-        # iter = into_iter(val) with val = try(try_find_iter(..))
-        inner = peel(itt)
-        if is_var(inner):
-            inner = b.local_term(inner[2], expand=True)
-        okn = inner[0] == 'try' and is_call(inner[1], r'Automaton::try_find_iter$')
+        okn = unwrapped_iter(nt[2][0]) is not None
     cx.report('R12.1', b, 'next', okn, 'the loop variable is the payload of next() on that iterator' if okn else 'the loop does not draw its matches from next() of the try_find_iter result')
-    if not nexts:
+    if len(nexts) != 1:
         return
     header = nexts[0][0]
-    mvar = b.locals_named('m')
-    if not mvar:
-        cx.bad(R, b, 'm', 'loop variable m not found')
-        return
-    m = ('v', 'm', mvar[0])
-    mdef = b.defs().get(mvar[0], [])
-    okm = len(mdef) == 1 and mdef[0][2] == 'assign'
-    if okm:
-        mt = b.rvalue_term(mdef[0][3]['r'], 0, mdef[0][0])
-        okm = mt[0] == 'f' and mt[1][0] == 'dc' and mt[1][2] == 'Some' and is_call(mt[1][1], r'Iterator::next$')
-    cx.report(R, b, 'm-def', okm, 'm = Some-payload of iterator.next()' if okm else 'm is not (only) the payload of next()')
+    ng = discr_gates(b, lambda x: is_call(x, r'Iterator::next$'))
+    some = [e for g in ng for e in arm_edges(b, g, 1)]
+    okm = len(some) == 1
+    cx.report(R, b, 'm-def', okm, 'the loop body runs on the Some-payload of iterator.next()' if okm else 'no unique Some-arm of iterator.next()')
     if not okm:
         return
-    mblk = mdef[0][0]
+    mblk = some[0][1]
     back = [(s, header) for s in b.pred(header) if b.dominates(header, s)]
 
+    def is_m(t):
+        t = ex(t)
+        return t[0] == 'f' and t[2] == '0' and t[1][0] == 'dc' and t[1][2] == 'Some' and is_call(ex(t[1][1]), r'Iterator::next$')
+
     def is_start(t):
-        return is_call(t, r'util::search::Match::start$') and peel(t[2][0]) == m
+        t = ex(t)
+        return is_call(t, r'util::search::Match::start$') and is_m(t[2][0])
 
     def is_end(t):
-        return is_call(t, r'util::search::Match::end$') and peel(t[2][0]) == m
-    lm = b.locals_named('last_match')
-    if not lm:
-        cx.bad(R, b, 'last_match', 'variable last_match not found')
-        return
-    LM = ('v', 'last_match', lm[0])
+        t = ex(t)
+        return is_call(t, r'util::search::Match::end$') and is_m(t[2][0])
+
+    def is_m_range(r):
+        """m.start()..m.end() in any spelling"""
+        r = ex(r)
+        if is_agg(r, r'core::ops::Range$') and isinstance(r[3], dict):
+            return is_start(r[3].get('start')) and is_end(r[3].get('end'))
+        if is_call(r, r'util::search::Match::range$'):
+            return is_m(r[2][0])
+        if is_call(r, r'util::search::Span::range$'):
+            s = ex(r[2][0])
+            return is_call(s, r'util::search::Match::span$') and is_m(s[2][0])
+        return False
     # events
     e1 = e3 = e5 = None
+    LM = None
     appends = []
     for blk, t in b.calls():
         ct = b.call_term(blk, t)
-        if re.search(APPEND, short(ct[1])) and peel(ct[2][0]) == dst:
-            ix = index_of(ct[2][1])
+        if re.search(APPEND, short(ct[1])) and ex(ct[2][0]) == dst:
+            ix = index_of(expand_vars(b, ct[2][1]))
             appends.append((blk, ix, ct))
-            if ix and ix[0] == hay and is_agg(ix[1], r'core::ops::Range$') and isinstance(ix[1][3], dict) and ix[1][3].get('start') == LM and is_start(ix[1][3].get('end')):
+            if ix and ex(ix[0]) == hay and is_agg(ix[1], r'core::ops::Range$') and isinstance(ix[1][3], dict) and is_var(ix[1][3].get('start')) and is_start(ix[1][3].get('end')):
                 e1 = blk
-            elif ix and ix[0] == hay and is_agg(ix[1], r'core::ops::RangeFrom$') and isinstance(ix[1][3], dict) and ix[1][3].get('start') == LM:
-                e5 = blk
-        if is_call(ct, r'core::ops::FnMut::call_mut$') and is_var(peel(ct[2][0]), 'replace_with'):
+                LM = ix[1][3].get('start')
+    if LM is None:
+        cx.bad(R, b, 'E1-prefix', 'no append of haystack[<copied-so-far>..m.start()] to dst found')
+        return
+    lm = [LM[2]]
+    for blk, ix, ct in appends:
+        if ix and ex(ix[0]) == hay and is_agg(ix[1], r'core::ops::RangeFrom$') and isinstance(ix[1][3], dict) and ix[1][3].get('start') == LM:
+            e5 = blk
+    for blk, t in b.calls():
+        ct = b.call_term(blk, t)
+        if is_call(ct, r'core::ops::FnMut::call_mut$') and ex(ct[2][0]) == RW:
             tup = ct[2][1]
             if is_agg(tup, 'tuple') and len(tup[3]) == 3:
                 a0, a1, a2 = tup[3]
-                ix = index_of(a1)
-                good = peel(a0) == m and peel(a2) == dst and ix and ix[0] == hay and is_agg(ix[1], r'core::ops::Range$') and is_start(ix[1][3].get('start')) and is_end(ix[1][3].get('end'))
+                ix = index_of(expand_vars(b, a1))
+                good = is_m(a0) and ex(a2) == dst and ix and ex(ix[0]) == hay and is_m_range(ix[1])
                 if good:
                     e3 = blk
                 else:
@@ -150,7 +176,7 @@ def splice_loop(cx, b, is_str):
         ok = not ({header, e5} & (r2 - {nxt}))
         cx.report(R, b, 'pairing:%s' % what.split()[0], ok, 'once the %s is reached, the %s follows before the next iteration or the exit' % ('prefix append' if a == e1 else 'update', what) if ok else 'a path skips the %s' % what)
     # closure result: false leaves the loop, true continues
-    cg = bool_gates(b, lambda x: is_call(x, r'FnMut::call_mut$') and is_var(peel(x[2][0]), 'replace_with'))
+    cg = bool_gates(b, lambda x: is_call(x, r'FnMut::call_mut$') and ex(x[2][0]) == RW)
     okc = False
     if len(cg) == 1:
         blk, cond, te, fe = cg[0]
@@ -163,7 +189,7 @@ def splice_loop(cx, b, is_str):
     okt = bool(oks) and must_pass(b, oks, [e5])
     cx.report(R, b, 'tail-before-Ok', okt, 'every path to Ok(()) appends haystack[last_match..] first' if okt else 'Ok(()) is reachable without the tail append')
     # skipping
-    bt = bool_gates(b, lambda x: is_call(x, r'core::str::(<impl str>::)?is_char_boundary$') and peel(x[2][0]) == hay and (is_start(x[2][1]) or is_end(x[2][1])))
+    bt = bool_gates(b, lambda x: is_call(x, r'core::str::(<impl str>::)?is_char_boundary$') and ex(x[2][0]) == hay and (is_start(x[2][1]) or is_end(x[2][1])))
     if is_str:
         gs = [g for g in bt if is_start(g[1][2][1])]
         ge = [g for g in bt if is_end(g[1][2][1])]
